@@ -27,7 +27,7 @@ def dynprog(l,s):
         m = None
         for i in range(n):
             u = x-l[i][1]
-            if (u>=0 and (u in p) and (p[u][0]<m or (m is None))):
+            if (u>=0 and (u in p) and ((m is None) or p[u][0]<m)):
                     m = p[u][0]
                     im = i
         if m!=None:
